@@ -188,6 +188,20 @@ class BusSession:
     def obs_digest(self):
         return self._obs_log.hexdigest()[:16]
 
+    # Python-side counters that a self-loop transition must not advance (the real system's state is
+    # unchanged after it, so the next operation tried from the same state must look exactly like it
+    # does after a fresh replay of the history)
+    COUNTER_ATTRS = ()
+
+    def snapshot(self):
+        return (dict(self.bus.serial), {a: getattr(self, a) for a in self.COUNTER_ATTRS})
+
+    def restore(self, snap):
+        self.bus.serial.clear()
+        self.bus.serial.update(snap[0])
+        for a, v in snap[1].items():
+            setattr(self, a, v)
+
     def died(self):
         self.bus.h.close()
 
